@@ -39,7 +39,7 @@ ASSUMPTIONS = [
     "RK decoding (×100 flag, 30-bit integer) is computed by the test driver, not by the C10 model (it belongs to the number-decoding property)",
     "xlsx numeric text -> f64 is Rust's str::parse (correctly rounded); the driver uses Python float() for the expected bits",
 ]
-TMP = os.path.join(vlib.CACHE, "tmp", "c10")
+TMP = os.path.join(vlib.CACHE, "tmp", "c10-%d" % os.getpid())
 ALPHA = '"\\_[];apmdhys/0:.x*'
 # second sweep family (audit 2, FMT-1): the era / Buddhist letters, the exponent context (a digit
 # placeholder in front of e) and the start of the keyword General
